@@ -19,6 +19,9 @@ EnergyVerdicts(ev) ==
   \o (IF ~TotalConsistent(ev.total, L) THEN <<"total_is_not_the_sum_of_entries">> ELSE <<>>)
   \* int() of a float sum: an exact integer sum may come out one below (FloatSumTruncation)
   \o (IF 100 * ev.extracted > SelectedSum100(L, ev.sel) \/ 100 * ev.extracted < SelectedSum100(L, ev.sel) - 100 THEN <<"extracted_sum_is_not_the_sum_of_selected_entries">> ELSE <<>>)
+  \* extract_energy_profile: per layer the sum of the selected entries (entries are 2-decimal floats: 1/100 slack)
+  \o (IF \E k \in 1..Len(L) : Abs(ev.profile100[k] - SelectedSum100(<<L[k]>>, <<ev.sel[k]>>)) > 1
+      THEN <<"profile_total_is_not_the_sum_of_selected_entries">> ELSE <<>>)
 Verdicts(ev) == IF ev.k = "count" THEN CountVerdicts(ev) ELSE EnergyVerdicts(ev)
 Init == i = 1
 Next == /\ i <= Len(Tr)
